@@ -1331,7 +1331,21 @@ func (g *Gen) Block() error {
 				return err
 			}
 		}
-		if g.chance(0.15) {
+		// a re-import rebuilds the plan counter as the largest plan identifier; that equals the stored counter in
+		// every reachable state (plans are never deleted) but not between a `jump` of the plan counter and the
+		// next plan creation - no round trip is asked for in that window
+		planCounterAttained := true
+		{
+			ctx := s.QueryCtx()
+			var maxID uint64
+			for _, p := range g.view().plans {
+				if p.id > maxID {
+					maxID = p.id
+				}
+			}
+			planCounterAttained = s.App.VPNKeeper.Plan.GetCount(ctx) == maxID
+		}
+		if planCounterAttained && g.chance(0.15) {
 			if err := g.line("reimport"); err != nil {
 				return err
 			}
